@@ -128,6 +128,13 @@ func (f *fakeCrdCache) GetReplicas(gvr schema.GroupVersionResource, namespace, n
 	f.w.yield("lister.cr")
 	f.w.mu.Lock()
 	defer f.w.mu.Unlock()
+	f.w.crCalls++
+	for _, k := range f.w.CrFail {
+		if k == f.w.crCalls {
+			// the custom resource could not be read (not "not found"): nothing is known about the app
+			return 0, apierrors.NewInternalError(fmt.Errorf("injected: replicas of %s/%s unreadable", namespace, name))
+		}
+	}
 	key := gvr.Resource + "/" + namespace + "/" + name
 	r, ok := f.w.crView[key]
 	if !ok {
@@ -220,6 +227,8 @@ type World struct {
 	opCallNo     int
 	lastTraceOp  int
 	fault        *Fault
+	CrFail       []int // 1-based indexes of custom-resource replica lookups that fail (not with NotFound)
+	crCalls      int
 	faultHit     bool
 	faultHitEver bool
 	crashed      bool
